@@ -504,6 +504,22 @@ pub fn big_records_case(rng: &mut Rng, variant: u64, thorough: bool) -> (Case, b
             // m = 0: no record of the kind is linked to any term - its ic is 0 everywhere, also
             // beyond the limit (nothing is converted)
             let m = *rng.pick(&[0u32, 1, 3]);
+            // first, in the same case: records beyond the limit with NO link at all (ic 0 everywhere)
+            c.op(format!("bulkrec {} 500000 {} {}", KINDS[k], *rng.pick(&[65_536u32, 70_000]), name("unlinked")));
+            c.op(format!("ann {} 9 {} 3", KINDS[(k + 1) % 3], name("other kind")));
+            c.op("ic".to_string());
+            c.op("build def 7".to_string());
+            c.op("tdump 7".to_string());
+            c.op("oracle ic 7".to_string());
+            c.op("new".to_string());
+            for (id, nm) in [(1u32, "All"), (118, "Phenotypic abnormality"), (2, "x"), (3, "y")] {
+                c.op(format!("term {} {}", id, name(nm)));
+            }
+            c.op("complete".to_string());
+            for (p, ch) in [(1u32, 118u32), (118, 2), (118, 3)] {
+                c.op(format!("parent {p} {ch}"));
+            }
+            c.op("connect".to_string());
             for i in 0..m {
                 c.op(format!("ann {} {} {} {}", KINDS[k], 10 + i, name("linked"), if i == 0 { 2 } else { 3 }));
             }
@@ -855,7 +871,19 @@ fn c19(rng: &mut Rng, idx: usize) -> Case {
         }
         // three modifier roots; a chain of 32 below the second; terms below its end, one of them
         // also below the phenotype trunk
-        let (roots, rest) = extra.split_at(3);
+        let (_, rest) = extra.split_at(3);
+        // the three modifier roots get ADJACENT ids (no other id between two roots)
+        let mut base = rng.range(2, 100) as u32;
+        while (base..base + 3).any(|x| x == 118 || f.terms.iter().any(|t| t.0 == x)) {
+            base += 1;
+        }
+        let roots_v: Vec<u32> = (base..base + 3).collect();
+        for (i, r) in roots_v.iter().enumerate() {
+            // reuse the slots of the three spare ids
+            let pos = f.terms.iter().position(|t| t.0 == extra[i]).unwrap();
+            f.terms[pos].0 = *r;
+        }
+        let roots = &roots_v[..];
         for r in roots {
             f.edges.push((1, *r));
         }
